@@ -198,10 +198,18 @@ class OBytearray:
 
 
 class ODict:
-    """python dict with concrete keys (python hashables) or opaque"""
+    """python dict: concrete keys (python hashables), or symbolic: has : (Array Val Bool), get : (Array Val Val)"""
 
-    def __init__(self, items=None):
-        self.items = dict(items or {})
+    def __init__(self, items=None, has=None, get=None):
+        self.items = dict(items or {}) if has is None else None
+        self.has, self.get = has, get
+
+
+class OIter:
+    """iterator object created by iter(x): an Iteration and the number of items already taken"""
+
+    def __init__(self, it, idx):
+        self.it, self.idx = it, idx
 
 
 class OStream:
